@@ -188,6 +188,30 @@ class Interp(Run, StmtMixin, ExprMixin, CallMixin, BuiltinMixin, LoopMixin, Spec
                     ob.model = self.extract_model(m3)
                     ob.model["__weak__"] = True
                     ob.model["__skolems__"] = skolem_values(m3)
+                else:
+                    # last resort: the quantifier-free part of the path condition alone.
+                    # sat is only a candidate (weak); it becomes a violation only if the
+                    # unit's native replay reproduces a failure of the property.
+                    from .qinst import _skolemize_neg
+
+                    try:
+                        neg, _sks = _skolemize_neg(ob.goal)
+                        s4 = z3.Solver()
+                        s4.set("timeout", self.opts.get("timeout_ms", 10000))
+                        for a in self.class_axioms():
+                            s4.add(a)
+                        for p in self.pc:
+                            if not has_quantifier(p):
+                                s4.add(p)
+                        if not has_quantifier(neg):
+                            s4.add(neg)
+                            if s4.check() == z3.sat:
+                                ob.result = "refuted"
+                                ob.reason = "weak: counter-model of the quantifier-free part of the path condition"
+                                ob.model = self.extract_model(s4.model())
+                                ob.model["__weak__"] = True
+                    except z3.Z3Exception:
+                        pass
         return ob
 
     def extract_model(self, m):
